@@ -426,6 +426,29 @@ class MomentsMonitor:
                           stat='remesh', where='changeSizeClasses')
             elif ev[0] == 'extend':
                 self.sig.add('extend')
+        # ---- a grid extension only appends empty classes: the distribution the model carries into the next step must still be the one
+        # the step's statistics were taken from (re-meshes interpolate and are judged by their own clauses)
+        for p in range(len(m.phases)):
+            kinds = [ev[0] for ev in events if ev[1] == p]
+            x = np.asarray(cap['x'][p], dtype=float)
+            if 'extend' not in kinds or 'remesh' in kinds or float(np.sum(x)) < self.minDens:
+                continue
+            R = np.asarray(cap['size'][p], dtype=float)
+            pbm = m.PBM[p]
+            live, Rl = np.asarray(pbm.PSD, dtype=float), np.asarray(pbm.PSDsize, dtype=float)
+            if len(live) < len(x):
+                continue          # not an extension after all (reset path)
+            cnt['extension_checks'] = cnt.get('extension_checks', 0) + 1
+            l0, l1, _, l3 = refs.moments(live, Rl)
+            ok = False
+            for ref in (x, np.where(x < 1, 0.0, x)):
+                r0, r1, _, r3 = refs.moments(ref, R)
+                if r0 > 0 and l0 > 0 and relclose(l0, r0, 1e-9) and relclose(l1 / l0, r1 / r0, 1e-9) and relclose(l3, r3, 1e-9):
+                    ok = True
+            if not ok:
+                r0, r1, _, r3 = refs.moments(x, R)
+                F.add('C02.extension_keeps_distribution', f'after step {n} phase {p}: grid extended {len(x)}->{len(live)} classes; the carried distribution has N={l0!r} Ravg={l1 / l0 if l0 else 0.0!r} m3={l3!r} '
+                      f'but the step reported N={r0!r} Ravg={r1 / r0!r} m3={r3!r}', stat='extension')
         self.N_live_prev = [float(np.sum(np.asarray(b.PSD, dtype=float))) for b in m.PBM]
 
 
